@@ -36,7 +36,7 @@ theorem inv_newBlock (s : BState) (b : Nat) (m : Int) (r : Nat) :
 
 /-- the invariant is preserved by every transaction of every outcome class -/
 theorem inv_step (s : BState) (t : EthTx) (x : Exec) (hi : Inv s) : Inv (stepEth s t x).1 := by
-  rcases stepEth_cases s t x with ⟨_, h⟩ | ⟨_, _, h⟩ | ⟨_, _, code, _, h⟩ | ⟨_, _, _, _, h⟩ | ⟨_, _, _, _, _, h⟩ |
+  rcases stepEth_cases s t x with ⟨_, h⟩ | ⟨_, _, h⟩ | ⟨_, _, code, _, _, _, h⟩ | ⟨_, _, _, _, h⟩ | ⟨_, _, _, _, _, h⟩ |
     ⟨_, _, _, _, _, _, h⟩ | ⟨_, _, _, _, _, _, h⟩ <;> rw [h]
   · exact hi
   · exact hi
@@ -54,7 +54,7 @@ theorem C13_txIndex (s : BState) (t : EthTx) (x : Exec) :
       (stepEth s t x).2.anteIdx = some s.txCount ∧ (stepEth s t x).1.txCount = s.txCount + 1) ∧
     (admitted (stepEth s t x).2.cls = false →
       (stepEth s t x).2.anteIdx = none ∧ (stepEth s t x).2.rcptIdx = none ∧ (stepEth s t x).1.txCount = s.txCount) := by
-  rcases stepEth_cases s t x with ⟨_, h⟩ | ⟨_, _, h⟩ | ⟨_, _, code, _, h⟩ | ⟨_, _, _, _, h⟩ | ⟨_, _, _, _, _, h⟩ |
+  rcases stepEth_cases s t x with ⟨_, h⟩ | ⟨_, _, h⟩ | ⟨_, _, code, _, _, _, h⟩ | ⟨_, _, _, _, h⟩ | ⟨_, _, _, _, _, h⟩ |
     ⟨_, _, _, _, _, _, h⟩ | ⟨_, _, _, _, _, _, h⟩ <;> rw [h]
   · simp [noOut, admitted]
   · simp [noOut, admitted]
@@ -68,7 +68,7 @@ theorem C13_txIndex (s : BState) (t : EthTx) (x : Exec) :
 theorem C13_receipt_index (s : BState) (t : EthTx) (x : Exec)
     (hc : (stepEth s t x).2.cls = .ok ∨ (stepEth s t x).2.cls = .vmerr) :
     (stepEth s t x).2.rcptIdx = some s.txCount ∧ (stepEth s t x).2.anteIdx = some s.txCount := by
-  rcases stepEth_cases s t x with ⟨_, h⟩ | ⟨_, _, h⟩ | ⟨_, _, code, _, h⟩ | ⟨_, _, _, _, h⟩ | ⟨_, _, _, _, _, h⟩ |
+  rcases stepEth_cases s t x with ⟨_, h⟩ | ⟨_, _, h⟩ | ⟨_, _, code, _, _, _, h⟩ | ⟨_, _, _, _, h⟩ | ⟨_, _, _, _, _, h⟩ |
     ⟨_, _, _, _, _, _, h⟩ | ⟨_, _, _, _, _, _, h⟩ <;> rw [h] at hc ⊢
   all_goals first
     | (simp [noOut, failedOut] at hc)
@@ -83,11 +83,11 @@ theorem C13_logIndex (s : BState) (t : EthTx) (x : Exec) (hi : Inv s) :
       totalLogs (stepEth s t x).1 = totalLogs s + x.nLogs) ∧
     (¬ ((stepEth s t x).2.cls = .ok ∨ (stepEth s t x).2.cls = .vmerr) →
       (stepEth s t x).2.logIdx = none ∧ totalLogs (stepEth s t x).1 = totalLogs s) := by
-  rcases stepEth_cases s t x with ⟨_, h⟩ | ⟨_, _, h⟩ | ⟨_, _, code, _, h⟩ | ⟨_, _, _, _, h⟩ | ⟨_, _, _, _, _, h⟩ |
+  rcases stepEth_cases s t x with ⟨_, h⟩ | ⟨_, _, h⟩ | ⟨_, _, code, _, _, _, h⟩ | ⟨_, _, _, _, h⟩ | ⟨_, _, _, _, _, h⟩ |
     ⟨_, _, _, _, _, _, h⟩ | ⟨_, _, _, _, _, _, h⟩ <;> rw [h]
   · simp [noOut]
   · simp [noOut, totalLogs]
-  · simp [noOut]
+  · simp [noOut, totalLogs]
   · simp [failedOut, noOut, anteState, totalLogs, sumL_append]
   · simp [failedOut, noOut, anteState, totalLogs, sumL_append]
   · simp [failedOut, noOut, anteState, totalLogs, sumL_append]
@@ -107,11 +107,11 @@ theorem C13_cumulativeGas (s : BState) (t : EthTx) (x : Exec) (hi : Inv s) :
     (((stepEth s t x).2.cls = .ok ∨ (stepEth s t x).2.cls = .vmerr) →
       (stepEth s t x).2.cumGas = some (x.gasUsed + totalGas s)) ∧
     totalGas (stepEth s t x).1 = totalGas s + receiptGas t x (stepEth s t x).2.cls := by
-  rcases stepEth_cases s t x with ⟨_, h⟩ | ⟨_, _, h⟩ | ⟨_, _, code, _, h⟩ | ⟨_, _, _, _, h⟩ | ⟨_, _, _, _, _, h⟩ |
+  rcases stepEth_cases s t x with ⟨_, h⟩ | ⟨_, _, h⟩ | ⟨_, _, code, _, _, _, h⟩ | ⟨_, _, _, _, h⟩ | ⟨_, _, _, _, _, h⟩ |
     ⟨_, _, _, _, _, _, h⟩ | ⟨_, _, _, _, _, _, h⟩ <;> rw [h]
   · simp [noOut, receiptGas]
   · simp [noOut, receiptGas, totalGas]
-  · simp [noOut, receiptGas]
+  · simp [noOut, receiptGas, totalGas]
   · simp [failedOut, noOut, anteState, totalGas, sumL_append, receiptGas]
   · simp [failedOut, noOut, anteState, totalGas, sumL_append, receiptGas]
   · simp [failedOut, noOut, anteState, totalGas, sumL_append, receiptGas]
@@ -124,7 +124,7 @@ theorem C13_cumulativeGas (s : BState) (t : EthTx) (x : Exec) (hi : Inv s) :
 theorem C13_status (s : BState) (t : EthTx) (x : Exec)
     (hc : (stepEth s t x).2.cls = .ok ∨ (stepEth s t x).2.cls = .vmerr) :
     ((stepEth s t x).2.status = some 1 ↔ x.vmErr = false) ∧ ((stepEth s t x).2.cls = .ok ↔ x.vmErr = false) := by
-  rcases stepEth_cases s t x with ⟨_, h⟩ | ⟨_, _, h⟩ | ⟨_, _, code, _, h⟩ | ⟨_, _, _, _, h⟩ | ⟨_, _, _, _, _, h⟩ |
+  rcases stepEth_cases s t x with ⟨_, h⟩ | ⟨_, _, h⟩ | ⟨_, _, code, _, _, _, h⟩ | ⟨_, _, _, _, h⟩ | ⟨_, _, _, _, _, h⟩ |
     ⟨_, _, _, _, _, _, h⟩ | ⟨_, _, _, _, _, _, h⟩ <;> rw [h] at hc ⊢
   all_goals first
     | (simp [noOut, failedOut] at hc)
@@ -135,7 +135,7 @@ CREATE(sender, nonce) is checked by E-block on the real event) -/
 theorem C13_contract (s : BState) (t : EthTx) (x : Exec) :
     (stepEth s t x).2.contract = some true ↔
       (t.create = true ∧ (stepEth s t x).2.cls = .ok) := by
-  rcases stepEth_cases s t x with ⟨_, h⟩ | ⟨_, _, h⟩ | ⟨_, _, code, _, h⟩ | ⟨_, _, _, _, h⟩ | ⟨_, _, _, _, _, h⟩ |
+  rcases stepEth_cases s t x with ⟨_, h⟩ | ⟨_, _, h⟩ | ⟨_, _, code, _, _, _, h⟩ | ⟨_, _, _, _, h⟩ | ⟨_, _, _, _, _, h⟩ |
     ⟨_, _, _, _, _, _, h⟩ | ⟨_, _, _, _, _, _, h⟩ <;> rw [h]
   · simp [noOut]
   · simp [noOut]
